@@ -56,6 +56,23 @@ def atoms(c):
     return [c]
 
 
+def k_elif_after_bit_test(case):
+    """an else-if chain in which a bit test (x & mask used as a condition) is followed by a further link of the chain"""
+    def is_bit(c):
+        return c[0] in ("bit", "truth") and c[1][0] == "&"
+
+    def walk(stmts):
+        for s in stmts:
+            if s[0] != "if":
+                continue
+            if len(s) > 4 and s[4] == "chain" and is_bit(s[1]):
+                return True
+            if walk(s[2]) or (s[3] and walk(s[3])):
+                return True
+        return False
+    return walk(case["stmts"])
+
+
 class C03(GenCheck):
     pid = "C03"
     props_file = "Props/C03.v"
@@ -63,7 +80,7 @@ class C03(GenCheck):
     technique = "Coq theorem about the comparison-width model of the generator (truth of every condition tree = exact truth under the range precondition, induction over the tree) + execution of the REAL generated with/Else code in the Coq ISA model with marker variables"
     trusted = ["coq/Ebpf/Isa.v (kernel-validated)", "jump patching / Else splicing of the generator is covered by execution of the emitted code only"]
     assumptions = []
-    known_classes = {}
+    known_classes = {"elif_after_bit_test": lambda case, o: k_elif_after_bit_test(case)}
 
     @property
     def c01(self):
@@ -106,6 +123,18 @@ class C03(GenCheck):
                 at[2] = ["c", B]
                 near = B + rng.choice([-1, 0, 0, 1])
                 values[at[1][1]] = near if lo <= near <= hi else rng.choice([lo, hi])
+            if at[0] in CMP and at[1][0] == "v" and rng.random() < 0.12:
+                # a masked value compared with its own mask: all of several bits, not any of them
+                mask = rng.choice([6, 3, 0x30, 0x81, 0xff, 0x0f0, 5])
+                name = at[1][1]
+                f = fm[name]
+                nb = dsl.fmt_size(f)
+                if mask < (1 << (8 * nb - 1)):
+                    bits = [b for b in range(16) if mask >> b & 1]
+                    part = sum(1 << b for b in bits if rng.random() < 0.5) if rng.random() < 0.7 else mask
+                    values[name] = (rng.randrange(1 << 6) << 8 & ((1 << (8 * nb - 1)) - 1) & ~mask) | part
+                    lhs = ["&", ["v", name], ["c", mask]] if rng.random() < 0.7 else ["&", ["c", mask], ["v", name]]
+                    at = [rng.choice(["==", "!="]), lhs, ["c", mask]]
             if at[0] == "xcmp" and at[3][0] == "c" and rng.random() < 0.2:
                 # the same for a fixed-point variable: the scaled constant is 2**31 exactly
                 at[3] = ["c", rng.choice([21474.83648, 21474.83647, 21474.83649, -21474.83648, 42949.67296])]
@@ -134,6 +163,9 @@ class C03(GenCheck):
             if els is not None and depth > 0 and rng.random() < 0.3:
                 els.append(block(depth - 1))
             blocks.append((m, cond, has_else))
+            if has_else and rng.random() < 0.3:
+                # an else-if chain: `with Else, cond2 as Else2:` after the block instead of a block nested in `with Else:`
+                return ["if", cond, body, [block(max(depth - 1, 0))], "chain"]
             return ["if", cond, body, els]
         for _ in range(nblocks):
             stmts.append(block(rng.choice([0, 0, 1, 2])))
@@ -191,15 +223,15 @@ class C03(GenCheck):
             if m == 1:
                 if self._reached(s[2], o, out):
                     return True
-            elif m == 2 and s[3]:
+            elif s[3] and (m == 2 or (len(s) > 4 and m == 0)):      # an else-if chain has no marker of its own for "else"
                 if self._reached(s[3], o, out):
                     return True
         return False
 
     def model_term(self, case):
         o = case.get("_o")
-        if o is None or isinstance(o, Err):
-            return None
+        if o is None or isinstance(o, Err) or k_elif_after_bit_test(case):
+            return None          # the open finding: which blocks were "reached" cannot be told from the markers there
         return f"(run {clist([self.ccond(case, c) for c, _ in self.reached(case['stmts'], o, [])])})"
 
     def model_value(self, case, o):
@@ -299,7 +331,7 @@ class C03(GenCheck):
     def rule(self):
         return ("1-3 sequenced with-blocks, nested up to depth 2, with and without Else, conditions = trees (depth <= 2) of & | ~ over comparison atoms (all six "
                 "operators, variables of all formats / registers / constants placed next to the left value so that both outcomes occur), bit tests x & mask and "
-                "plain truth tests; every block sets its own marker, a third of the nested blocks end the program with exit(), a final marker checks that execution continues otherwise; checked when all compared values fit the narrowest width")
+                "plain truth tests; every block sets its own marker, a third of the nested blocks end the program with exit(), 30% of the blocks with Else continue as an else-if chain (`with Else, cond as Else2:`), a final marker checks that execution continues otherwise; checked when all compared values fit the narrowest width")
 
     def distribution(self, cases, observed):
         d = {"blocks": 0, "with_else": 0, "atoms": 0, "outside_precondition": 0}
